@@ -216,7 +216,8 @@ def s09_generated(ctx):
 
     res = StreamResult("S09-generated", rule="regenerated Validation._validate (Lean, compiled) vs the real method on scripted validator classes: ALL combinations of "
                        "LINESTRING_ONLY x geometry kind (line, empty line, multi-line, point) x verdict x fix outcome (new geometry / None / NotImplementedError) x "
-                       "allow_fix x ERROR (major / minor) x ERROR already present (exhaustive, 768 cases); non-trivial = the validator fails")
+                       "allow_fix x ERROR (major / minor) x ERROR already present (exhaustive, 768 cases); regenerated is_empty_area (exact geometry) vs the real function on 1..3 area "
+                       "rows with traces inside / crossing / far outside; non-trivial = the validator fails / the area is void of traces")
     if ctx.gen is None:
         res.note = "gen_c09 not built (a generated module is broken): skipped"
         res.skipped["generated_driver_not_built"] = 1
@@ -258,6 +259,40 @@ def s09_generated(ctx):
             res.disagreements.append(Disagreement("S09-generated", {"stream": "S09-generated", "request": req}, got, want, None,
                                                   "regenerated _validate (Lean) and the Python method disagree: translator semantics wrong"))
     res.samples = [{"request": reqs[5], "response": resps[5]}]
+    # the regenerated is_empty_area (exact geometry) vs the real function: 1..3 area rows, traces inside / crossing / outside
+    import geopandas as gpd
+    from shapely.geometry import box as _box
+
+    from fractopo.general import is_empty_area
+    from harness.common import area_rows, lines as wlines, rng_for
+
+    rng = rng_for(ctx.seed, "S09e")
+    ecases, ereqs = [], []
+    for _ in range(budget(ctx.tier, 120, 2000)):
+        centres = rng.sample([(0.0, 0.0), (40.0, 0.0), (0.0, 50.0), (-60.0, -60.0)], rng.randint(1, 3))
+        areas = [_box(cx - 8, cy - 8, cx + 8, cy + 8) for cx, cy in centres]
+        trs = []
+        for _ in range(rng.randint(1, 4)):
+            kind = rng.choice(["in", "cross", "out", "out"])
+            cx, cy = rng.choice(centres)
+            if kind == "in":
+                trs.append([(cx - 2.0, cy + rng.randint(-20, 20) / 4), (cx + 3.0, cy + rng.randint(-20, 20) / 4)])
+            elif kind == "cross":
+                trs.append([(cx + 4.0, cy + 1.0), (cx + 14.0, cy + 2.5)])
+            else:
+                trs.append([(cx + 100.0 + rng.randint(0, 9), cy + 100.0), (cx + 130.0, cy + 101.0 + rng.randint(0, 9))])
+        ecases.append((areas, trs))
+        ereqs.append(f"gempty areas={area_rows(areas)} traces={wlines(trs)}")
+    eresps = ctx.gen.parallel(ereqs)
+    for (areas, trs), req, resp in zip(ecases, ereqs, eresps):
+        res.evaluations += 1
+        want = bool(is_empty_area(area=gpd.GeoDataFrame(geometry=areas), traces=gpd.GeoDataFrame(geometry=[LineString(t) for t in trs])))
+        got = parse_resp(resp)["empty"] == "1"
+        res.nontrivial += int(want)
+        res.distribution["is_empty_area=%s" % want] = res.distribution.get("is_empty_area=%s" % want, 0) + 1
+        if got != want:
+            res.disagreements.append(Disagreement("S09-generated", {"stream": "S09-generated", "request": req}, got, want, None,
+                                                  "regenerated is_empty_area (Lean) and the Python function disagree"))
     return res
 
 
